@@ -117,18 +117,57 @@ func c09(c *Ctx) {
 	// ---- R09.3 -----------------------------------------------------------------------
 	cntFld := c.fieldOf("store", "syncRef", "counter")
 	tblFld := c.fieldOf("store", "WriteControlledStore", "entryTable")
-	if acq != nil {
-		pub := 0
-		for _, b := range acq.Blocks {
+	// publications: every write into entryTable, wherever it sits (acquireSyncRef or a helper of it)
+	isTable := func(m ssa.Value) bool {
+		return engine.AnyBackward(m, engine.FlowOpts{Loads: true}, func(x ssa.Value) bool {
+			if u, ok := x.(*ssa.UnOp); ok {
+				if fa, ok := u.X.(*ssa.FieldAddr); ok && fieldOfAddr(fa) == tblFld {
+					return true
+				}
+			}
+			return false
+		})
+	}
+	// a value is private when it was just taken from the pool or freshly allocated in this function
+	privateRef := func(v ssa.Value) bool {
+		okAll, any := true, false
+		engine.Backward(v, engine.FlowOpts{Loads: true}, func(x ssa.Value) bool {
+			switch t := x.(type) {
+			case *ssa.Phi, *ssa.Extract, *ssa.ChangeType:
+				return true
+			case *ssa.TypeAssert:
+				if call, ok := t.X.(*ssa.Call); ok && call.Call.StaticCallee() != nil && call.Call.StaticCallee().String() == "(*sync.Pool).Get" {
+					any = true
+					return false
+				}
+			case *ssa.Alloc:
+				if t.Heap {
+					any = true
+					return false
+				}
+			}
+			if _, isLoad := x.(*ssa.UnOp); isLoad {
+				return true
+			}
+			okAll = false
+			return false
+		})
+		return okAll && any
+	}
+	pub := 0
+	pubsOf := map[*ssa.Function][]*ssa.MapUpdate{}
+	for _, f := range c.funcsInPkg("store") {
+		for _, b := range f.Blocks {
 			for _, in := range b.Instrs {
 				mu, ok := in.(*ssa.MapUpdate)
-				if !ok {
+				if !ok || !isTable(mu.Map) {
 					continue
 				}
 				pub++
+				pubsOf[f] = append(pubsOf[f], mu)
 				v := mu.Value
 				okInit := false
-				for _, b2 := range acq.Blocks {
+				for _, b2 := range f.Blocks {
 					for _, in2 := range b2.Instrs {
 						st, ok := in2.(*ssa.Store)
 						if !ok {
@@ -143,11 +182,11 @@ func c09(c *Ctx) {
 						}
 					}
 				}
-				R.Check(okInit, "R09.3", c.name(acq)+"|publish-with-count-1", P.Pos(mu.Pos()), "a pooled lock entry is published with counter = 1", "a lock entry taken from the pool is put into entryTable without resetting its counter to 1: a recycled entry starts at 0 or below, is dropped from the table while a holder still owns the lock, and the next user of the id gets a different lock (reader and writer overlap)")
+				R.Check(okInit, "R09.3", c.name(f)+"|publish-with-count-1", P.Pos(mu.Pos()), "a pooled lock entry is published with counter = 1", "a lock entry taken from the pool is put into entryTable without resetting its counter to 1: a recycled entry starts at 0 or below, is dropped from the table while a holder still owns the lock, and the next user of the id gets a different lock (reader and writer overlap)")
 			}
 		}
-		R.Min("R09.3", "publications into entryTable", pub, 1)
 	}
+	R.Min("R09.3", "publications into entryTable", pub, 1)
 	for _, f := range c.funcsInPkg("store") {
 		for _, b := range f.Blocks {
 			for _, in := range b.Instrs {
@@ -164,8 +203,14 @@ func c09(c *Ctx) {
 						R.Fail("R09.3", c.name(f)+"|counter-access", P.Pos(r.Pos()), "syncRef.counter used without sync/atomic")
 					case *ssa.Store:
 						// plain stores only while the entry is private: in acquireSyncRef before publication, or the pool constructor
-						okPriv := topFn(f) == acq || strings.Contains(c.name(f), "NewWriteControlledStore")
-						R.Check(okPriv, "R09.3", c.name(f)+"|counter-store", P.Pos(r.Pos()), "plain store to the counter only while the entry is private", "syncRef.counter is written non-atomically outside acquireSyncRef/pool constructor")
+						// plain stores only while the entry is private: taken from the pool (or allocated) in this very function and not yet published
+						okPriv := privateRef(fa.X)
+						for _, mu := range pubsOf[f] {
+							if mu.Value == fa.X && !engine.InstrDominates(t, mu) {
+								okPriv = false
+							}
+						}
+						R.Check(okPriv, "R09.3", c.name(f)+"|counter-store", P.Pos(r.Pos()), "plain store to the counter only while the entry is private", "syncRef.counter is written non-atomically to an entry that is not private (not just taken from the pool / allocated here, or already published in entryTable)")
 					case *ssa.UnOp:
 						R.Fail("R09.3", c.name(f)+"|counter-load", P.Pos(r.Pos()), "syncRef.counter read without sync/atomic")
 					}
@@ -751,7 +796,11 @@ func c09pathAgreement(c *Ctx) {
 	pathFld := c.fieldOf("store", "onDiskStore", "path")
 	n := 0
 	for _, f := range c.funcsInPkg("store") {
-		if f.Signature.Recv() == nil || !strings.Contains(f.Signature.Recv().Type().String(), "onDiskStore") {
+		top := f
+		for top.Parent() != nil {
+			top = top.Parent() // a function literal inside a method belongs to the method
+		}
+		if top.Signature.Recv() == nil || !strings.Contains(top.Signature.Recv().Type().String(), "onDiskStore") {
 			continue
 		}
 		for _, cs := range engine.Calls(f) {
@@ -841,56 +890,59 @@ func c09deleteAll(c *Ctx) {
 			continue
 		}
 		ids := f.Params[len(f.Params)-1]
-		for _, h := range f.Blocks {
-			body := engine.LoopBody(h)
-			if body == nil {
-				continue
-			}
-			reads := false
-			for b := range body {
-				for _, in := range b.Instrs {
-					if ia, ok := in.(*ssa.IndexAddr); ok && engine.AnyBackward(ia.X, engine.FlowOpts{Loads: true}, func(x ssa.Value) bool { return x == ssa.Value(ids) }) {
-						reads = true
-					}
-				}
-			}
-			if !reads {
-				continue
-			}
-			n++
-			bad := ""
-			for b := range body {
-				if b == h {
+		top := f
+		for _, f := range engine.WithClosures(top) { // the loop may sit in a function literal that captured the ids
+			for _, h := range f.Blocks {
+				body := engine.LoopBody(h)
+				if body == nil {
 					continue
 				}
-				for _, s := range b.Succs {
-					if body[s] {
+				reads := false
+				for b := range body {
+					for _, in := range b.Instrs {
+						if ia, ok := in.(*ssa.IndexAddr); ok && engine.AnyBackward(ia.X, engine.FlowOpts{Loads: true}, func(x ssa.Value) bool { return x == ssa.Value(ids) }) {
+							reads = true
+						}
+					}
+				}
+				if !reads {
+					continue
+				}
+				n++
+				bad := ""
+				for b := range body {
+					if b == h {
 						continue
 					}
-					// early exit b -> s: which returns can follow, and do they report success?
-					reach := engine.BlocksReachableFrom(s)
-					for _, ret := range engine.Returns(f) {
-						if !reach[ret.Block()] {
+					for _, s := range b.Succs {
+						if body[s] {
 							continue
 						}
-						lr := engine.LastResult(ret)
-						if lr == nil {
-							continue
-						}
-						if engine.IsNilConst(lr) {
-							bad = P.Pos(ret.Pos())
-						}
-						if phi, ok := lr.(*ssa.Phi); ok {
-							for i, e := range phi.Edges {
-								if engine.IsNilConst(e) && (reach[phi.Block().Preds[i]] || phi.Block().Preds[i] == s) && !body[phi.Block().Preds[i]] {
-									bad = P.Pos(ret.Pos())
+						// early exit b -> s: which returns can follow, and do they report success?
+						reach := engine.BlocksReachableFrom(s)
+						for _, ret := range engine.Returns(f) {
+							if !reach[ret.Block()] {
+								continue
+							}
+							lr := engine.LastResult(ret)
+							if lr == nil {
+								continue
+							}
+							if engine.IsNilConst(lr) {
+								bad = P.Pos(ret.Pos())
+							}
+							if phi, ok := lr.(*ssa.Phi); ok {
+								for i, e := range phi.Edges {
+									if engine.IsNilConst(e) && (reach[phi.Block().Preds[i]] || phi.Block().Preds[i] == s) && !body[phi.Block().Preds[i]] {
+										bad = P.Pos(ret.Pos())
+									}
 								}
 							}
 						}
 					}
 				}
+				R.Check(bad == "", "R09.10", c.name(top)+"|loop over ids", P.Pos(firstPosOf(h)), "an early exit of the loop is never followed by a nil error", "after leaving the loop over the ids early the method can still return a nil error ("+bad+"): the remaining ids are not deleted although success is reported")
 			}
-			R.Check(bad == "", "R09.10", c.name(f)+"|loop over ids", P.Pos(firstPosOf(h)), "an early exit of the loop is never followed by a nil error", "after leaving the loop over the ids early the method can still return a nil error ("+bad+"): the remaining ids are not deleted although success is reported")
 		}
 	}
 	R.Min("R09.10", "loops over id lists in Delete methods of package store", n, 2)
